@@ -4,7 +4,7 @@ streamed bytes, for every stream and every chunking, under the hypotheses `VhdxF
 `VhdxMetaSigOK` (the negations of the known-finding classes KF_D7 and KF_N4, where the statement
 is false).
 -/
-import OsloProofs.Lemmas.VhdxInv
+import OsloProofs.Lemmas.VhdxSample
 namespace Oslo.Insp
 
 def vhdxVerdict (m complete : Bool) (vsize : Except Err Int) (raised : Option Err) : Verdict :=
@@ -123,6 +123,39 @@ theorem lemma_init_vhdx : Insp.init .vhdx = some (stA []) := by
   simp [Insp.init, Fmt.initChecks, Gen.vhdx_checks, Fmt.initRegions, Gen.vhdx_regions, mkRegions, stA, vst,
     plainR, sliceOf]
 
+/-- between chunks the verdict of the state is the specification's verdict of the prefix streamed -/
+theorem lemma_verdict_state (q : Bytes) (st : Insp) (h : VInv q st) :
+    verdict (st.finish, none) = specVhdx q := by
+  cases h with
+  | early hlt =>
+    rw [lemma_verdict_A]
+    unfold specVhdx
+    simp only [if_pos hlt, decide_eq_false (show ¬ 262144 ≤ q.length by omega)]
+  | nometa hl hr =>
+    rw [lemma_verdict_A]
+    unfold specVhdx
+    simp only [if_neg (show ¬ q.length < 262144 by omega), hr, decide_eq_true hl]
+  | withMeta mo hl hr he =>
+    rw [lemma_verdict_M q mo none hl]
+    unfold specVhdx
+    simp only [if_neg (show ¬ q.length < 262144 by omega), hr, he]
+  | withVds mo ioff ilen L hl hr he hL =>
+    rw [lemma_verdict_V q mo L _ _ none hl hL]
+    unfold specVhdx
+    simp only [if_neg (show ¬ q.length < 262144 by omega), hr, he]
+
+/-- an inspector that stopped with an error at the prefix `q` has the specification's verdict of
+    every extension of `q` -/
+theorem lemma_verdict_err (s q : Bytes) (st : Insp) (e : Err) (hq : q <+: s) (h : VErr q st e) :
+    verdict (st.finish, some e) = specVhdx s := by
+  obtain ⟨hl, hr, rfl⟩ := h
+  have hls := List.IsPrefix.length_le hq
+  have hh : sliceOf s 196608 65536 = sliceOf q 196608 65536 := lemma_sliceOf_within hq _ _ (by omega)
+  rw [lemma_verdict_A]
+  unfold specVhdx
+  simp only [if_neg (show ¬ s.length < 262144 by omega), hh, hr,
+    lemma_startsWith_prefix hq (by omega), decide_eq_true hl]
+
 /-- **vhdx_chunk_independent_partial** (C01-6) — for every stream and every chunking of it (empty
     chunks included), fed the way `InspectWrapper` feeds (an inspector that raised is not fed again)
     and then finished, the verdict of the VHDX inspector — `format_match`, `complete`,
@@ -141,41 +174,15 @@ theorem vhdx_chunk_independent_partial (s0 : Insp) (h0 : Insp.init .vhdx = some 
   obtain ⟨q, hq, hnext, hend⟩ := lemma_vinv_feed chunks.flatten hf hs chunks [] (stA [])
     (VInv.early (by simp)) (by simp)
   unfold runChunks
-  generalize chunks.flatten = s at *
   cases hfeed : feed (stA []) chunks with
   | mk st e =>
     rw [hfeed] at hnext hend
-    simp only
     cases e with
-    | some err =>
-      obtain ⟨hl, hr, rfl⟩ := hnext
-      have hls := List.IsPrefix.length_le hq
-      have hh : sliceOf s 196608 65536 = sliceOf q 196608 65536 := lemma_sliceOf_within hq _ _ (by omega)
-      rw [lemma_verdict_A]
-      unfold specVhdx
-      simp only [if_neg (show ¬ s.length < 262144 by omega), hh, hr,
-        lemma_startsWith_prefix hq (by omega), decide_eq_true hl]
+    | some err => exact lemma_verdict_err _ q st err hq hnext
     | none =>
       have := hend rfl
       subst this
-      simp only [VNext] at hnext
-      cases hnext with
-      | early hlt =>
-        rw [lemma_verdict_A]
-        unfold specVhdx
-        simp only [if_pos hlt, decide_eq_false (show ¬ 262144 ≤ q.length by omega)]
-      | nometa hl hr =>
-        rw [lemma_verdict_A]
-        unfold specVhdx
-        simp only [if_neg (show ¬ q.length < 262144 by omega), hr, decide_eq_true hl]
-      | withMeta mo hl hr he =>
-        rw [lemma_verdict_M q mo none hl]
-        unfold specVhdx
-        simp only [if_neg (show ¬ q.length < 262144 by omega), hr, he]
-      | withVds mo ioff ilen L hl hr he hL =>
-        rw [lemma_verdict_V q mo L _ _ none hl hL]
-        unfold specVhdx
-        simp only [if_neg (show ¬ q.length < 262144 by omega), hr, he]
+      exact lemma_verdict_state _ st hnext
 
 /-- … hence two chunkings of the same bytes give the same verdict, component by component -/
 theorem vhdx_verdict_eq_partial (s0 : Insp) (h0 : Insp.init .vhdx = some s0) (c1 c2 : List Bytes)
@@ -187,5 +194,95 @@ theorem vhdx_verdict_eq_partial (s0 : Insp) (h0 : Insp.init .vhdx = some s0) (c1
   have e1 := vhdx_chunk_independent_partial s0 h0 c1 hf hs
   have e2 := vhdx_chunk_independent_partial s0 h0 c2 (h ▸ hf) (h ▸ hs)
   simp only [e1, e2, h, and_self]
+
+/-- the same at every point of the feed (before `finish()`), as long as the inspector has not raised:
+    what `format_match`, `complete`, `virtual_size` and `safety_check` answer after any chunk list is
+    the specification's verdict of the bytes streamed so far -/
+theorem vhdx_verdict_at_every_point_partial (s0 : Insp) (h0 : Insp.init .vhdx = some s0) (chunks : List Bytes)
+    (hf : VhdxForward chunks.flatten) (hs : VhdxMetaSigOK chunks.flatten)
+    (hok : (feed s0 chunks).2 = none) :
+    verdict ((feed s0 chunks).1.finish, none) = specVhdx chunks.flatten := by
+  rw [lemma_init_vhdx] at h0
+  simp only [Option.some.injEq] at h0
+  subst h0
+  obtain ⟨q, hq, hnext, hend⟩ := lemma_vinv_feed chunks.flatten hf hs chunks [] (stA [])
+    (VInv.early (by simp)) (by simp)
+  have := hend hok
+  subst this
+  cases hfeed : feed (stA []) chunks with
+  | mk st e =>
+    rw [hfeed] at hnext hok
+    simp only at hok
+    subst hok
+    exact lemma_verdict_state _ st hnext
+
+/-- whether the inspector raises while being fed, and with what, does not depend on the chunking -/
+theorem vhdx_raised_chunk_independent_partial (s0 : Insp) (h0 : Insp.init .vhdx = some s0) (c1 c2 : List Bytes)
+    (h : c1.flatten = c2.flatten) (hf : VhdxForward c1.flatten) (hs : VhdxMetaSigOK c1.flatten) :
+    (feed s0 c1).2 = (feed s0 c2).2 := by
+  have e1 := vhdx_chunk_independent_partial s0 h0 c1 hf hs
+  have e2 := vhdx_chunk_independent_partial s0 h0 c2 (h ▸ hf) (h ▸ hs)
+  have : (verdict (runChunks s0 c1)).raised = (verdict (runChunks s0 c2)).raised := by rw [e1, e2, h]
+  exact this
+
+/-! ### the hypotheses are met -/
+
+/-- streams that end before the header region is complete satisfy both hypotheses -/
+theorem vhdx_hyps_of_short (s : Bytes) (h : s.length < 262144) : VhdxForward s ∧ VhdxMetaSigOK s := by
+  have : vhdxMetaOff s = none := by unfold vhdxMetaOff; rw [if_pos h]
+  constructor
+  · unfold VhdxForward vhdxForwardB; rw [this]
+  · unfold VhdxMetaSigOK vhdxMetaSigOKB; rw [this]
+
+/-- streams whose region table is refused or names no metadata region satisfy both hypotheses -/
+theorem vhdx_hyps_of_no_metadata (s : Bytes)
+    (h : ∀ mo, findMetaRegionB (sliceOf s 196608 65536) ≠ .ok (some mo)) : VhdxForward s ∧ VhdxMetaSigOK s := by
+  have : vhdxMetaOff s = none := by
+    unfold vhdxMetaOff
+    split
+    · rfl
+    · split
+      · rename_i mo heq; exact absurd heq (h mo)
+      · rfl
+  constructor
+  · unfold VhdxForward vhdxForwardB; rw [this]
+  · unfold VhdxMetaSigOK vhdxMetaSigOKB; rw [this]
+
+/-- every well-formed image (`VhdxImage`: byte-level description) satisfies both hypotheses -/
+theorem vhdx_hyps_of_image (s : Bytes) (rc j mo mc i ioff : Nat) (h : VhdxImage s rc j mo mc i ioff) :
+    VhdxForward s ∧ VhdxMetaSigOK s := lemma_image_hyps s rc j mo mc i ioff h
+
+/-! non-vacuity: a short stream; and the concrete 262 216-byte image `vhdxSample` (signature, one-entry
+    region table, one-entry metadata table, size item), for which the specification — hence the
+    inspector under every chunking — answers: match, complete, the declared size, safety check passed. -/
+example : VhdxForward (ascii "vhdxfile") ∧ VhdxMetaSigOK (ascii "vhdxfile") :=
+  vhdx_hyps_of_short _ (by decide)
+
+example (sz : Bytes) (hs : sz.length = 8) : VhdxForward (vhdxSample sz) ∧ VhdxMetaSigOK (vhdxSample sz) :=
+  vhdx_hyps_of_image _ _ _ _ _ _ _ (lemma_sample_image sz hs)
+
+theorem vhdx_sample_spec (sz : Bytes) (hs : sz.length = 8) :
+    specVhdx (vhdxSample sz) = vhdxVerdict true true (.ok (leNat sz : Nat)) none := by
+  have himg := lemma_sample_image sz hs
+  have hr := lemma_image_region _ _ _ _ _ _ _ himg
+  obtain ⟨he, _, _⟩ := lemma_image_entry _ _ _ _ _ _ _ himg
+  have hlen := lemma_sample_length sz hs
+  have m : min 8 65536 = 8 := by decide
+  have hvd : sliceOf (vhdxSample sz) (262144 + 64) 8 = sz := by
+    have h1 := lemma_vslice_sliceOf (vhdxSample sz) (262144 + 64) 8 0 8 (by omega)
+    rw [lemma_sample_size sz hs] at h1
+    have h2 : slice (sliceOf (vhdxSample sz) (262144 + 64) 8) 0 8 = sliceOf (vhdxSample sz) (262144 + 64) 8 := by
+      simp only [slice, sliceOf, List.drop_zero, List.take_take, Nat.min_self]
+    rw [← h2]; exact h1
+  unfold specVhdx
+  simp only [if_neg (show ¬ (vhdxSample sz).length < 262144 by omega), hr, he, m, hvd, hs, lemma_sample_magic,
+    if_true, unpackLE]
+
+example (s0 : Insp) (h0 : Insp.init .vhdx = some s0) (chunks : List Bytes)
+    (h : chunks.flatten = vhdxSample [0, 0, 0, 64, 0, 0, 0, 0]) :
+    verdict (runChunks s0 chunks) = vhdxVerdict true true (.ok 1073741824) none := by
+  have hyp := vhdx_hyps_of_image _ _ _ _ _ _ _ (lemma_sample_image [0, 0, 0, 64, 0, 0, 0, 0] rfl)
+  rw [vhdx_chunk_independent_partial s0 h0 chunks (h ▸ hyp.1) (h ▸ hyp.2), h, vhdx_sample_spec _ rfl]
+  rfl
 
 end Oslo.Insp
